@@ -116,6 +116,24 @@ def parseOp : List String → Option Op
   | ["getRetention", b, k, vid] => do pure (.getRetention (← Bytes.ofHex b) (← Bytes.ofHex k) (← Bytes.ofHex vid))
   | ["putLegalHold", b, k, vid, on] => do pure (.putLegalHold (← Bytes.ofHex b) (← Bytes.ofHex k) (← Bytes.ofHex vid) (on = "1"))
   | ["getLegalHold", b, k, vid] => do pure (.getLegalHold (← Bytes.ofHex b) (← Bytes.ofHex k) (← Bytes.ofHex vid))
+  | "createUpload" :: b :: k :: newId :: rest => do
+    let (p, rest') ← parsePutSpec rest
+    if rest' ≠ [] then none else pure (.createUpload (← Bytes.ofHex b) (← Bytes.ofHex k) p (← Bytes.ofHex newId))
+  | ["uploadPart", b, k, id, num, data, etag] => do
+    pure (.uploadPart (← Bytes.ofHex b) (← Bytes.ofHex k) (← Bytes.ofHex id) (← num.toNat?) (← parseData data) (← Bytes.ofHex etag))
+  | ["uploadPartCopy", b, k, id, num, sb, sk, svid, range, etag] => do
+    let r ← (if range = "~" then some none else match range.splitOn ":" with
+      | [a, e] => do pure (some ((← a.toNat?), (← e.toNat?)))
+      | _ => none)
+    pure (.uploadPartCopy (← Bytes.ofHex b) (← Bytes.ofHex k) (← Bytes.ofHex id) (← num.toNat?) (← Bytes.ofHex sb) (← Bytes.ofHex sk) (← Bytes.ofHex svid) r (← Bytes.ofHex etag))
+  | ["listParts", b, k, id] => do pure (.listParts (← Bytes.ofHex b) (← Bytes.ofHex k) (← Bytes.ofHex id))
+  | ["listUploads", b] => do pure (.listUploads (← Bytes.ofHex b))
+  | ["completeUpload", b, k, id, parts, mpEtag, newVid] => do
+    let ps ← parseList parts "," fun e => match e.splitOn ":" with
+      | [n, t] => do pure ((← n.toNat?), (← Bytes.ofHex t))
+      | _ => none
+    pure (.completeUpload (← Bytes.ofHex b) (← Bytes.ofHex k) (← Bytes.ofHex id) ps (← Bytes.ofHex mpEtag) (← Bytes.ofHex newVid))
+  | ["abortUpload", b, k, id] => do pure (.abortUpload (← Bytes.ofHex b) (← Bytes.ofHex k) (← Bytes.ofHex id))
   | _ => none
 
 def parseCaller (s : String) : Option Caller :=
